@@ -53,6 +53,9 @@ def make_case(rng, idx, sub):
         files = sorted({f.name for f in spec.hfiles})
         if sub == "map":
             spec.name, spec.destname = "src", "dest"
+        # one package in five is driven from OUTSIDE the package directory: every invocation of the case is started in the
+        # module root with ./<pkg> as [dir] (there goimports does not see the sibling source files)
+        spec.dirarg = rng.random() < 0.2
         mode = "file" if rng.random() < 0.65 else "star"
         if mode == "file":
             cands = [f for f in files if len(generating(spec, spec.eligible(f))) >= 2]
@@ -146,6 +149,30 @@ def corpus_cases(start):
     sel = ["Order", "Bill"]
     res.append(Case(start + 4, mn, mn.cmd_file("model.go"), mn.cmd_file("model.go", sep=True), sel,
                     [mn.cmd_types(sel), mn.cmd_types(list(reversed(sel)))]))
+    # the same package imported under different names by the files of two types, the names used in text shoot copies
+    # verbatim (field types, def= values); driven from the module root with [dir] (inside the package directory goimports
+    # would restore a lost renamed import from the sibling files): the all-in-one import block = union of the per-type ones
+    ttl = F("ttl", "time.Duration", deflt="time.Minute")
+    delay = F("delay", "time.Duration", deflt="2*stdtime.Second")
+    delay.goty = "stdtime.Duration"
+    fa2 = histgen.HFile("a.go", [S("Audit", [ttl, F("note", "string")])], imports=["time"])
+    fb2 = histgen.HFile("b.go", [S("Backoff", [delay, F("tries", "int")])], imports=[("stdtime", "time")])
+    al = histgen.Pkg("new", "p", [fa2, fb2], ["-opt"])
+    al.dirarg = True
+    aio, sep = al.cmd_star(), al.cmd_star(sep=True)
+    for c in (aio, sep):
+        fa2.gen.append("//go:generate go run github.com/lopolopen/shoot/cmd/shoot " + " ".join(c.argv()))
+    sel = ["Audit", "Backoff"]
+    res.append(Case(start + 5, al, aio, sep, sel, [al.cmd_types(sel), al.cmd_types(list(reversed(sel)))]))
+    # -opt -short: the option functions are named after the field only; two types of one run share a field name (the
+    # package then redeclares the function: open finding K_opt_short_collision, a matter of C01).  What is generated for a
+    # type must still not depend on the other types of the run nor on the -type order
+    fs2 = histgen.HFile("types.go", [S("Server", [F("host", "string"), F("port", "int")]),
+                                     S("Client", [F("host", "string"), F("timeout", "int")])])
+    sh = histgen.Pkg("new", "p", [fs2], ["-opt", "-short"])
+    sel = ["Server", "Client"]
+    res.append(Case(start + 6, sh, sh.cmd_file("types.go"), sh.cmd_file("types.go", sep=True), sel,
+                    [sh.cmd_types(sel), sh.cmd_types(list(reversed(sel)))]))
     # one name reached twice at the same depth (Wire.q and Base.q from Beta; Conf.q and Wire.q from Delta): the class of
     # the constructor findings K_ctor_ambiguous_promoted (the option function / parameter is printed twice, the file
     # does not compile).  The random stream avoids the class; this case keeps the model's reading of it (every
@@ -166,7 +193,7 @@ def corpus_cases(start):
         aio, sep = am.cmd_star(), am.cmd_star(sep=True)
         for c in (aio, sep):
             ft.gen.append("//go:generate go run github.com/lopolopen/shoot/cmd/shoot " + " ".join(c.argv()))
-        res.append(Case(start + 5 + k, am, aio, sep, sel, [am.cmd_types(sel), am.cmd_types(list(reversed(sel)))]))
+        res.append(Case(start + 7 + k, am, aio, sep, sel, [am.cmd_types(sel), am.cmd_types(list(reversed(sel)))]))
     return res
 
 
@@ -183,7 +210,7 @@ def execute_case(run, shoot, case):
         return Site(root / ("s%02d" % k[0]), spec, files)
 
     def one(cmd, site):
-        r = run_cmd(shoot, site, cmd)
+        r = run_cmd(shoot, site, cmd, cwd=site.root if spec.dirarg else None)
         r["paths"] = [str(site.pkgdir / n) for n in r["written"]]
         return r
     obs = {}
@@ -386,7 +413,7 @@ def main(run):
         run.proof_failure_violation()
     nruns = sum(len(rs) for c in cases for rs in c.obs.values())
     feats = {"embedding": 0, "embedding_in_K_embed_order_class": 0, "shoot_new_marks": 0, "generic": 0,
-             "map_shootnew_side": 0, "map_mapper_funcs": 0, "map_pointer_embed": 0, "map_nested_struct_field": 0, "star_mode": 0, "file_mode": 0,
+             "opt_short": 0, "driven_with_dir_argument": 0, "map_shootnew_side": 0, "map_mapper_funcs": 0, "map_pointer_embed": 0, "map_nested_struct_field": 0, "star_mode": 0, "file_mode": 0,
              "two_files": 0, "failed_runs": 0}
     for c in cases:
         s = c.spec
@@ -395,6 +422,8 @@ def main(run):
         else:
             feats["file_mode"] += 1
         feats["two_files"] += len(s.hfiles) > 1
+        feats["driven_with_dir_argument"] += bool(s.dirarg)
+        feats["opt_short"] += "-short" in s.flags
         feats["failed_runs"] += sum(1 for rs in c.obs.values() for r in rs if r["rc"] != 0)
         if s.sub == "new":
             feats["embedding"] += any(isinstance(it, histgen.Embed) for st in s.structs() for it in st.items)
@@ -413,14 +442,18 @@ def main(run):
         "distinct_nontrivial": len({json.dumps(c.spec.files(), sort_keys=True) for c in cases if nontrivial(c)}),
         "rule": ("packages of harness/histgen.py: %s (new: 2..6 structs with get/set/new/def directives, json/new tags, "
                  "value and pointer embedding in both declaration orders, shadowing, generics, type-level getter/setter, "
-                 "flags out of -getset -json -opt; enum: 2..5 int types with const blocks over 1..2 files, -json -text; "
+                 "flags out of -getset -json -opt (-short); enum: 2..5 int types with const blocks over 1..2 files, -json -text; "
                  "rest: 2..3 RestClient interfaces with headers=, alias=, path/query/struct/map parameters; map: 2..4 "
                  "src/dest pairs with map tags, convertible and unmatched fields, mapper funcs, embedded pointer structs, "
                  "shoot-new source or destination sides, -way).  Per package: all-in-one (-file= or -type=* with a "
                  "go:generate line), the same with -sep, -type=T one at a time in one copy, -type=T alone in fresh copies, "
                  "-type=<list> and up to 3 permutations (incl. the reversal).  non-trivial = distinct packages having a "
                  "feature through which types can interact (new: embedding or shoot:new marks; map: a shoot-new side or "
-                 "embedded structs; enum/rest: >= 2 selected types)" % plan),
+                 "embedded structs; enum/rest: >= 2 selected types).  One package in five is driven from the module root with "
+                 "./<pkg> as [dir] in all five modes.  Fixed cases in every run: renamed import carried by the second source, "
+                 "pointer-embed mapper pairs, embedding chains, nested struct fields (makeSubMap), one package imported under "
+                 "two names with the names in copied text (def= values) driven with [dir], -opt -short with a shared field "
+                 "name, two shapes with a name reached twice at one depth" % plan),
         "exhaustive": False,
         "traces_validated_against_impl": len(cases),
         "programs": len(cases),
@@ -441,13 +474,15 @@ TRUSTED = [
     "a generated declaration is modelled as (name, kind with the payload later analyses read back, has-doc, "
     "ends-with-inner-comment, needed imports, token list); gofmt/goimports printing is not modelled: the tie is "
     "'equal printed text in the implementation iff equal tokens in the model' over all declarations of a case",
+    "import specs are compared with their local names: a type is printed with the package name (plain import) whatever "
+    "the source file calls the import; a renamed import survives only through text copied verbatim (def= values)",
     "goimports is modelled as 'the import set of a file is exactly what its declarations need' (d_needs given per "
     "template fragment); import resolution of non-stdlib packages depends on the process cwd (finding K_goimports_cwd, C07)",
     "packages.Load with an overlay is modelled as the file list hand-written + generated-on-disk, overlay entries "
     "replacing/adding by file name, sorted by name; go/types lookups (Scope.Lookup, AssignableTo) as first match in that order",
     "the per-type analyses (field flattening and shadowing, directive parsing, name/type matching of the mapper on the "
     "palette int/int64/int32/float64/string/bool, rest parameter classification) are transcribed for the compact grammar "
-    "of harness/histgen.py only (mapper: the non-slice form of makeSubMap included); slice sub-mapping, manual toX/fromX methods, -alias/-to/-i, -tagcase, -short, enum -bit/-sql "
+    "of harness/histgen.py only (mapper: the non-slice form of makeSubMap included); slice sub-mapping, manual toX/fromX methods, -alias/-to/-i, -tagcase, enum -bit/-sql "
     "are outside this model (other properties cover them)",
     "comment attachment in MergeSources (byte distance < 10) is modelled as: doc comments stay with their declaration, and "
     "a declaration without doc comment also receives the comment that ends the previous declaration of the same source",
